@@ -12,6 +12,8 @@
      A2  field-space shortcut of DynamoOMPParallelLoopTrans (C23_inc_refuted_shortcut)
      B1  OMPParallelTrans / ACCParallelTrans enclose loops over colours
                                                           (C23_colours_refuted_{omp,acc}_region)
+     (a loop below `acc loop seq` -- DAccLoopSeq, produced iff options["sequential"] -- is not a
+      parallel loop and `acc loop seq` is not a region: invA/invB exempt exactly that directive)
      B2  Dynamo0p3ColourTrans colours a loop below an ACC loop directive
                                                           (C23_colours_refuted_below_acc_loop)
    What is proved instead: part A in full for any has_inc_arg that covers INC and READINC without
@@ -92,7 +94,7 @@ Print Assumptions C23_colours_refuted_acc_region.
 
 Theorem C23_colours_refuted_below_acc_loop : forall incs sc,
   invB_t plain = true /\ forallb nodir plain = true /\
-  invB_t (run incs sc [OAccLoop [] 0 DaFalse; OColour [0] 0] plain) = false.
+  invB_t (run incs sc [OAccLoop [] 0 DaFalse false false false false; OColour [0] 0] plain) = false.
 Proof. exact refuted_colour_below_acc_loop. Qed.
 Print Assumptions C23_colours_refuted_below_acc_loop.
 
@@ -114,6 +116,19 @@ Example C23_nonvacuous_B :
   run [AInc] true ex_hist ex_tree <> ex_tree.
 Proof. exact nonvacuous_B. Qed.
 Print Assumptions C23_nonvacuous_B.
+
+(* ACCLoopTrans options: with `sequential` the INC loop (and a loop over colours, with collapse(2))
+   is accepted, but the directive is `acc loop seq`, which is exempt; without it the loop is refused *)
+Example C23_seq_exempt :
+  run [AInc; AReadInc] false [OAccLoop [] 1 DaFalse true true false false] ex_tree =
+    [NHalo; NDir DAccLoopSeq [NLoop LCells false [NKern true false [(AInc, Cont); (ARead, Cont)]]];
+     NLoop LDof false [NKern false false [(AWrite, Unknown)]]] /\
+  invA_t (run [AInc; AReadInc] false [OAccLoop [] 1 DaFalse true true false false] ex_tree) = true /\
+  invB_t (run [AInc; AReadInc] false
+            [OColour [] 1; OAccLoop [] 1 DaFalse true false true true] ex_tree) = true /\
+  step [AInc; AReadInc] false (OAccLoop [] 1 DaFalse false true false false) ex_tree = None.
+Proof. exact seq_exempt. Qed.
+Print Assumptions C23_seq_exempt.
 
 Example C23_covers_examples : covers_all [AInc; AReadInc] = true /\ covers_all [AInc] = false.
 Proof. exact covers_examples. Qed.
